@@ -179,5 +179,31 @@ theorem seekTo_playing (t t' : Transport) (p n : Nat) (h : t.seekTo p n = .ok t'
   | error f => simp [hw] at h
   | ok q => simp only [hw] at h; injection h with h; subst h; exact ⟨rfl, rfl⟩
 
+theorem increment_total (t : Transport) (n : Nat) (hv : t.ValidLoop n) :
+    ∃ t', t.increment n = .ok t' ∧ t'.loopRegion = t.loopRegion := by
+  cases hp : t.playing with
+  | false => exact ⟨t, increment_stopped t n hp, rfl⟩
+  | true =>
+    cases hl : t.loopRegion with
+    | none => exact ⟨_, increment_noLoop t n hp hl, by simp [hl]⟩
+    | some r =>
+      obtain ⟨ls, le⟩ := r
+      have hv' : ls < le ∧ le ≤ n := by simpa [ValidLoop, hl] using hv
+      exact ⟨_, increment_loop t n ls le hp hl hv'.1, by simp [hl]⟩
+
+theorem decrement_total (t : Transport) (n : Nat) (hv : t.ValidLoop n) :
+    ∃ t', t.decrement = .ok t' ∧ t'.loopRegion = t.loopRegion := by
+  cases hp : t.playing with
+  | false => exact ⟨t, decrement_stopped t hp, rfl⟩
+  | true =>
+    cases hl : t.loopRegion with
+    | none =>
+      refine ⟨_, decrement_noLoop t hp hl, ?_⟩
+      by_cases h0 : t.position = 0 <;> simp [h0, hl]
+    | some r =>
+      obtain ⟨ls, le⟩ := r
+      have hv' : ls < le ∧ le ≤ n := by simpa [ValidLoop, hl] using hv
+      exact ⟨_, decrement_loop t ls le hp hl hv'.1, by simp [hl]⟩
+
 end Transport
 end K
